@@ -416,6 +416,9 @@ func runHist(c histCase) harness.Result {
 	if overlap {
 		labels = append(labels, "overlapping-reads")
 	}
+	if len(c.WantText) >= 2 {
+		labels = append(labels, "texts-with-equal-checksum")
+	}
 	return harness.Result{NonTrivial: len(c.Actions) >= 2 && overlap, Labels: labels}
 }
 
